@@ -98,4 +98,25 @@ TraceAccepted ==
   IF reached = Len(Rec) + 1 THEN TRUE
   ELSE /\ PrintT(<<"REJECTED", ToJson([at |-> reached, event |-> Rec[reached]])>>)
        /\ FALSE
+
+(***************************************************************************)
+(* Monitor mode: the observable outcome of a real run (call logs + result) *)
+(* is installed as a final state and judged by the specification's own     *)
+(* property definitions (OnceSoFar, Verdict, ExactlyOnce, ImportsFirst),   *)
+(* independently of the order in which the implementation explores.        *)
+(***************************************************************************)
+ObsRec == ndJsonDeserialize(IOEnv.OBS)
+
+ObsInit ==
+  /\ l \in 1..Len(ObsRec)
+  /\ LET r == ObsRec[l] IN
+     /\ G = r.G /\ broken = AsSet(r.broken)
+     /\ loaded = r.loaded /\ parsed = r.parsed /\ valids = r.valids /\ compiled = r.compiled
+     /\ result = [kind |-> r.kind, target |-> r.target]
+  /\ pc = "done" /\ deps = {} /\ nodes = <<>> /\ edges = {} /\ queue = <<>> /\ cur = Main
+  /\ imports = <<>> /\ i = 1 /\ pending = Main /\ order = <<>> /\ ci = 1
+
+ObsNext == UNCHANGED tvars
+
+ObsJudged == PrintT(<<"JUDGED", ToJson([l |-> l])>>)
 =============================================================================
